@@ -103,7 +103,14 @@ SimExp(fam, j, w) ==
   CASE fam = "Sedov" -> SedovExp(j, w)
     [] OTHER -> [density |-> Q0, velocity |-> Q0, pressure |-> Q0, specific_internal_energy |-> Q0,
                  sound_speed |-> Q0, temperature |-> Q0, rshock |-> Q1]      \* x/t similarity: fields unchanged, positions ~ t
+(* Guderley: x = t_L / r^lambda is kept fixed by the pair (r, t_L) -> (a r, q t_L), q = a^lambda (lambda read off the solver's shock *)
+(* trajectory by the harness); the documented prefactors then give: density unchanged, velocities x a/q, pressure, energy x (a/q)^2  *)
+GudFactor(e) == [density |-> SLOne, velocity |-> Div(e.lratio, e.tratio), sound_speed |-> Div(e.lratio, e.tratio),
+                 pressure |-> Sq(Div(e.lratio, e.tratio)), specific_internal_energy |-> Sq(Div(e.lratio, e.tratio))]
 SimilarClauses(e, tol) ==
+  IF e.fam = "Guderley"
+  THEN UNION { Chk("SIM." \o n, SameF(e.b[n], Mul(e.a[n], GudFactor(e)[n]), tol, Mul(e.fl[n], GudFactor(e)[n]))) : n \in DOMAIN e.a }
+  ELSE
   UNION { Chk("SIM." \o n, SameF(e.b[n], Mul(e.a[n], PowQ(e.tratio, SimExp(e.fam, e.geometry, e.omega)[n])), tol,
                                  Mul(e.fl[n], PowQ(e.tratio, SimExp(e.fam, e.geometry, e.omega)[n])))) : n \in DOMAIN e.a }
 
